@@ -5,7 +5,9 @@ real count-min sketches (vf/checks/cm_common.py, mode "edge"): linear sketches
 incl. merged and saturated states; log8 / log16 sketches where each add event
 carries the environment's answers (every vector of advance/stay draws for
 v <= 3), in a configuration whose probabilistic range starts after 3 adds and
-in the default configuration.
+in the default configuration.  Plus, on one-cell log sketches: every start value of
+the reserved range x bulk adds ending at or below num_reserved+1 under worst-case
+draws, and bulk adds with multiplicities 65536 .. 2^40.
 """
 from . import c01
 from . import cm_common as C
@@ -50,6 +52,14 @@ def pool_size(tier):
 
 def run(rep):
     c01.run_modes(rep, MODES, configs(rep.tier, rep.seed))
+    # log sketches, bulk adds on a one-cell sketch (shared with C06): from every start value
+    # of the reserved range under worst-case draws, and multiplicities 65536 .. 2^40
+    from . import c06
+
+    n = c06.reserved_bulk(rep) + c06.huge_multiplicities(rep)
+    rep.evals(n)
+    rep.add("transitions", n)
+    rep.add("traces_validated_against_impl", n)
     rep.set(
         "rule",
         "edge predicate (estimate of the key, other keys, table diff, n_added) on every add "
@@ -60,6 +70,10 @@ def run(rep):
 
 
 def replay(case):
+    if case.get("part") in ("bulk", "huge"):
+        from . import c06
+
+        return c06.replay(case)
     case = dict(case)
     case["modes"] = list(MODES)
     return c01.replay(case)
